@@ -245,12 +245,25 @@ void Provider::update(const Service &service)
     // service uses a different name - if so, it must first be confirmed (if
     // the hostname changes after all, onHostnameChanged() takes over)
     if (!d->srvProposed.target().isEmpty()) {
-        // (a probe that is still pending - for a previously requested name or
-        // because the hostname changed - is superseded by a new one, so that
-        // its handler withdraws the records being replaced before publishing)
-        if (!d->confirmed || fqName != d->srvRecord.name() || d->prober) {
+        if (!d->confirmed || fqName != d->srvRecord.name()) {
             d->confirm();
         } else {
+
+            // The service is already confirmed under this name: a probe that
+            // is still pending (for a previously requested name or because
+            // the hostname changed) is obsolete and must not replace these
+            // records when it completes; probing the name again is not
+            // needed either (and this provider's own announcements, looped
+            // back by the network, would be mistaken for a conflict)
+            if (d->prober) {
+                delete d->prober;
+                d->prober = nullptr;
+            }
+
+            // Records pointing at a previous hostname are withdrawn first
+            if (d->srvProposed.target() != d->srvRecord.target()) {
+                d->farewell();
+            }
             d->publish();
         }
     }
